@@ -181,6 +181,23 @@ static void finish_child(RunCtx& ctx)
     write_all(ctx.out_fd, out);
 }
 
+/** property a crash / hang / exit inside a library call is reported under: C01 when armed (or nothing is armed), else the
+ *  profile's own property (see the comment in reap()); "" = not reported */
+static std::string crash_property(const std::string& profile, const std::set<std::string>& armed, const char* hint)
+{
+    if (armed.empty() || armed.count("C01"))
+        return "C01";
+    static const std::map<std::string, std::vector<std::string>> own{
+        {"blast", {"C16", "C06"}}, {"mirror", {"C04"}}, {"twin", {"C05"}}, {"writer", {"C20"}}};
+    auto it = own.find(profile);
+    if (it == own.end() || strncmp(hint, "noise:", 6) == 0)
+        return "";
+    for (auto& p : it->second)
+        if (armed.count(p))
+            return p;
+    return "";
+}
+
 static void abort_report(const char* cls)
 {
     // called from a signal handler or from inside the allocator: only async-signal-safe work
@@ -189,8 +206,10 @@ static void abort_report(const char* cls)
     char buf[1400];
     const char* hint = g_shared ? g_shared->hint : "";
     const char* desc = g_shared ? g_shared->desc : "";
-    int n = snprintf(buf, sizeof buf, "V\tC01\t%s\t%s|%s\t%d\t%s\n", cls, cls, hint, g_shared ? (int)g_shared->step : -1, desc);
-    if (g_ctx->armed.empty() || g_ctx->armed.count("C01")) {
+    const std::string prop = crash_property(g_ctx->profile, g_ctx->armed, hint);
+    int n = snprintf(buf, sizeof buf, "V\t%s\t%s%s\t%s|%s\t%d\t%s\n", prop.c_str(), prop == "C01" ? "" : "crash:", cls, cls, hint,
+                     g_shared ? (int)g_shared->step : -1, desc);
+    if (!prop.empty()) {
         if (n > 0)
             (void)!::write(g_ctx->out_fd, buf, (size_t)std::min<int>(n, (int)sizeof buf - 1));
     }
@@ -571,6 +590,17 @@ static RunResult reap(Child& c)
             if (!c.shared->in_call) {
                 v.property = "HARNESS";
                 v.cls = "harness-crash";
+            }
+        }
+        // A crash is a C01 matter, but it also defeats the profile's own property: a writer that dies has not written
+        // a faithful file (C20 says "writing never crashes"), a load that dies under one injected label fault has
+        // disturbed everything else (C16) and reported no diagnostic (C06), a well-formed model that kills the
+        // reader is not mirrored (C04/C05). When C01 is not the armed property the crash is attributed accordingly.
+        if (v.property == "C01") {
+            const std::string prop = crash_property(c.spec.profile, c.spec.armed, hint.c_str());
+            if (!prop.empty() && prop != "C01") {
+                v.property = prop;
+                v.cls = "crash:" + v.cls;
             }
         }
         if (c.spec.armed.empty() || c.spec.armed.count(v.property) || v.property == "HARNESS")
